@@ -6,7 +6,7 @@ V = '/verif'
 
 NOTE = ("Trusted base: Lean 4.33.0 kernel with axioms propext/Classical.choice/Quot.sound only (audited per theorem on every run; "
         "no sorry/admit/native_decide/bv_decide/own axioms); the hand-written Lean model lean/CorsVerif/Model tied to /repo by "
-        "Gen/Facts.lean (regenerated from the working tree by harness/extract) and by the differential correspondence harness "
+        "Gen/Facts.lean (regenerated from the working tree by harness/extract), Gen/Pipeline.lean (the four decision steps of the preflight pipeline translated from middleware.go on every run and proved equal to the model's) and by the differential correspondence harness "
         "(harness/inject, overlaid into /repo's module at build time); library behaviour modelled, not verified: x/net idna and "
         "publicsuffix and IPv6 netip (oracles answered by the real libraries per case), IPv4 netip, httpguts token table, "
         "net/http.Header, maps.Copy, errors.Join, sync.RWMutex, the Go memory model, range-over-func. ")
